@@ -294,6 +294,8 @@ def execute(inp):
 def run_case(inp, ctx):
     key, tags = inp['key'], inp['tags']
     judge = inp['judge']
+    if judge == 'g':
+        return run_g(ctx)
     if judge == 'chain':
         return run_chain(inp, ctx)
     got = execute(inp)
@@ -871,7 +873,68 @@ def gen_f(shard, tier):
                             code, sname, cname, '+'.join(order))}
 
 
-GEN = {'a': gen_a, 'b': gen_b, 'c': gen_c, 'd': gen_d, 'e': gen_e,
+# -- type reports of constants that are equal in Python -------------------------
+# ISNUMBER / ISTEXT / ISBLANK report the type of the value a cell holds -
+# whatever other cell, holding a value that Python finds equal (1.0 and TRUE,
+# 0.0 and FALSE, 1 and TRUE), was read before in the same process.  Each
+# sequence runs in a fresh interpreter.
+G_PAIRS = ((1.0, True), (0.0, False), (1, True), (0, False), (2.0, 2))
+G_FORMS = (('ISNUMBER', lambda v: not isinstance(v, bool)),
+           ('ISTEXT', lambda v: False),
+           ('ISBLANK', lambda v: False),
+           ('ISERROR', lambda v: False),
+           ('=TRUE', lambda v: v is True),
+           ('=1', lambda v: not isinstance(v, bool) and v == 1),
+           ('=0', lambda v: not isinstance(v, bool) and v == 0),
+           ('=FALSE', lambda v: v is False))
+
+
+def run_g(ctx):
+    import json
+    import os
+    import subprocess
+    import sys
+    root = os.path.dirname(os.path.dirname(os.path.dirname(
+        os.path.abspath(__file__))))
+    for pi, (x, y) in enumerate(G_PAIRS):
+        for first in ('X', 'Y'):
+            cells = {'Sheet1!X1': x, 'Sheet1!Y1': y}
+            order, wants = [], []
+            cols = ('X', 'Y') if first == 'X' else ('Y', 'X')
+            for col in cols:
+                v = x if col == 'X' else y
+                for fi, (form, want) in enumerate(G_FORMS):
+                    addr = 'Sheet1!%s%d' % (col, fi + 2)
+                    cells[addr] = ('=%s1%s' % (col, form)) if form[0] == '=' \
+                        else '=%s(%s1)' % (form, col)
+                    order.append(addr)
+                    wants.append((col, form, 'bool:%s' % bool(want(v))))
+            p = subprocess.run(
+                [sys.executable, '-W', 'ignore', '-m', 'xlmc.checks.seq_proc',
+                 json.dumps({'cells': cells, 'order': order})],
+                cwd=root, stdout=subprocess.PIPE, stderr=subprocess.DEVNULL,
+                text=True, timeout=300)
+            tags = ['grp:g', 'family:python-equal-constants',
+                    'first:' + first]
+            inputs = {'g': 'g'}
+            key0 = 'C07/g/%r~%r/first=%s' % (x, y, first)
+            if p.returncode != 0 or not p.stdout.strip():
+                ctx.fail(key0 + '/process', tags, inputs, 'sequence runs',
+                         'exit %s' % p.returncode)
+                continue
+            res = json.loads(p.stdout.strip().splitlines()[-1])
+            for (col, form, want), got in zip(wants, res):
+                ctx.check('%s/%s1%s' % (key0, col, form), got, want, tags,
+                          inputs, True,
+                          note='fresh process; X1=%r Y1=%r, column %s read '
+                          'first' % (x, y, first))
+
+
+def gen_g(shard, tier):
+    yield {'g': 'g', 'judge': 'g', 'key': 'C07/g', 'tags': []}
+
+
+GEN = {'g': gen_g, 'a': gen_a, 'b': gen_b, 'c': gen_c, 'd': gen_d, 'e': gen_e,
        'f': gen_f}
 
 
@@ -909,6 +972,7 @@ def plan(tier):
     for fn in INSPECTORS + ('NA',):
         shards.append({'g': 'e', 'name': fn})
     shards.append({'g': 'f', 'name': 'chains'})
+    shards.append({'g': 'g', 'name': 'python-equal-constants'})
     return shards
 
 
@@ -932,6 +996,9 @@ def run_shard(shard, ctx):
 def replay(inputs, ctx):
     import warnings
     warnings.simplefilter('ignore')
+    if inputs.get('g') == 'g':
+        run_g(ctx)
+        return
     run_case(dict(inputs), ctx)
 
 
